@@ -14,6 +14,7 @@ import (
 	"strconv"
 	"strings"
 	"sync"
+	"sync/atomic"
 	"time"
 )
 
@@ -27,6 +28,7 @@ type Violation struct {
 
 // Ctx is handed to a check's Run function.
 type Ctx struct {
+	lastBeat int64 // unix nanos of the last sign of progress (watchdog)
 	ID      string
 	Tier    string
 	Seed    int64
@@ -71,6 +73,7 @@ func Hash(parts ...any) uint64 {
 // counts as non-trivial by the check's rule.
 func (c *Ctx) Eval(key any, nontrivial bool) {
 	c.Evals++
+	c.Heartbeat()
 	if nontrivial {
 		c.Distinct[Hash(key)] = struct{}{}
 	}
@@ -159,6 +162,8 @@ type Check struct {
 	MinOutcom int // minimal number of outcome classes (vacuity), default 2
 	// Explain adds free-form keys to coverage.
 	Extra func(c *Ctx, cov map[string]any)
+	// Race: optional auxiliary free-running -race pass (see race.go).
+	Race *RaceSpec
 }
 
 var registry = map[string]*Check{}
@@ -194,6 +199,13 @@ func Def[S any](ck Check, enumerate func(c *Ctx, yield func(S)), run func(c *Ctx
 	registry[ck.ID] = &c
 }
 
+// watchdogLimit: a case (or, for a case that is a whole subtree of schedules, one execution of it) that
+// makes no progress for this long is a hang; generous because the machine may be shared with other work.
+const watchdogLimit = 240 * time.Second
+
+// Heartbeat tells the watchdog that the current case is making progress (one execution finished).
+func (c *Ctx) Heartbeat() { atomic.StoreInt64(&c.lastBeat, time.Now().UnixNano()) }
+
 func runOne[S any](c *Ctx, s S, run func(c *Ctx, s S)) {
 	raw, _ := json.Marshal(s)
 	c.curSpec = raw
@@ -201,14 +213,21 @@ func runOne[S any](c *Ctx, s S, run func(c *Ctx, s S)) {
 	// ends the worker with an infrastructure error instead of blocking the check forever
 	done := make(chan struct{})
 	defer close(done)
+	c.Heartbeat()
 	go func() {
-		select {
-		case <-done:
-		case <-time.After(90 * time.Second):
+		for {
+			select {
+			case <-done:
+				return
+			case <-time.After(5 * time.Second):
+			}
+			if time.Since(time.Unix(0, atomic.LoadInt64(&c.lastBeat))) < watchdogLimit {
+				continue
+			}
 			buf := make([]byte, 1<<20)
 			n := runtime.Stack(buf, true)
 			os.WriteFile(filepath.Join(VerifDir, ".work", fmt.Sprintf("watchdog-%d.txt", os.Getpid())), buf[:n], 0o644)
-			fmt.Fprintf(os.Stderr, "WATCHDOG: case did not finish within 90 s (stacks in .work/watchdog-%d.txt): %s\n", os.Getpid(), raw)
+			fmt.Fprintf(os.Stderr, "WATCHDOG: case made no progress for %v (stacks in .work/watchdog-%d.txt): %s\n", watchdogLimit, os.Getpid(), raw)
 			os.Exit(3)
 		}
 	}()
@@ -330,6 +349,14 @@ func Main(args []string) int {
 	if id == "list" {
 		fmt.Println(strings.Join(IDs(), "\n"))
 		return 0
+	}
+	if id == "has-race" { // exit 0 iff the named check has an auxiliary race pass (asked by bin/check)
+		if len(args) > 1 {
+			if ck := Lookup(args[1]); ck != nil && ck.Race != nil {
+				return 0
+			}
+		}
+		return 1
 	}
 	tier := os.Getenv("VERIF_TIER")
 	if tier == "" {
@@ -540,6 +567,10 @@ func drive(ck *Check, tier string, seed int64) int {
 			return 2
 		}
 	}
+	var raceInfo map[string]any
+	if ck.Race != nil {
+		raceInfo = racePass(ck, tier, seed, viol)
+	}
 	// classify
 	findings := loadFindings()
 	var sigs []string
@@ -604,6 +635,9 @@ func drive(ck *Check, tier string, seed int64) int {
 		cov["states"] = len(states)
 		cov["transitions"] = tot.Transitions
 		cov["traces_validated_against_impl"] = tot.Traces
+	}
+	if raceInfo != nil {
+		cov["auxiliary_race_pass"] = raceInfo
 	}
 	if len(knownLines) > 0 {
 		cov["known_findings_reproduced"] = knownLines
